@@ -140,6 +140,7 @@ var awkwardSources = []string{
 	`name=" \(x\)` + "\n", `\$_(?:GET|POST)` + "\n", `\$1x` + "\n" + `a${b}` + "\n", "trailing blank \n", `href=" \(` + "\n",
 	"foo\nbar\n", "ls\ncat\n", `a\$b` + "\n", `\"quoted\"` + "\n" + "x\n", `"@rx foo` + "\n", `a "@rx b` + "\n" + "c\n", "a b\n", `a\\b` + "\n", `\x5cd` + "\n",
 	`" \d` + "\n", `[\"']x` + "\n", `^\s*x$` + "\n", "##!+ i\nselect\nunion\n", "##!^ \\b\nfoo\nfob\n", `a" \` + "\n" + `b\n`, "x\\ \n", "uid:932100x\n", "SecRule\nSecAction\n",
+	"##!> define sep [;|&]\n##!> define start (?:^|{{sep}})\n##!^ {{start}}\nfoo\nbar\n", "##!> define c [0-9]\n##!> define b x{{c}}\n##!> define a {{b}}y\n##!$ {{a}}\nfoo\n",
 	"[ ]select\n", "[ ]+x\n[ ]y\n", "", "##! only a comment\n", "##!> define unused x\n\n", "(?:lisa|maggie\n", "fine\n##!> assemble\n  open\n", "ok\n##!> frobnicate\n", `"!@rx x` + "\n", "##!> assemble\na\nb\n##!=>\nc\n##!<\n", `\.(?:ht|js)` + "\n", "é\n", `end" \\` + "\n",
 }
 
@@ -193,7 +194,8 @@ func rulesGen(r *rand.Rand, lane string) *rulesCase {
 			other := ids[r.Intn(len(ids))]
 			rs.Before = append(rs.Before, core.Pick(r, "#", "# Unix command injection", "", "# See also rule "+other+".",
 				"# This rule is a stricter sibling of rule id:"+other+" (see above).", "#   \"id:"+other+",\\", "# SecRule ARGS \"@rx commented out\" \\",
-				"# ctl:ruleRemoveTargetById=id:"+other+";ARGS:foo", "#SecRule REQUEST_URI \"@rx x\" \"id:"+other+",phase:1,deny\""))
+				"# ctl:ruleRemoveTargetById=id:"+other+";ARGS:foo", "#SecRule REQUEST_URI \"@rx x\" \"id:"+other+",phase:1,deny\"",
+				"    # History: id:"+id+" was split off id:"+other+" in 3.3", "\t# see id:"+id, "  #id:"+id+",\\"))
 		}
 		if lane == "hostile" {
 			rs.Inside = core.Chance(r, 1, 3)
